@@ -57,6 +57,10 @@ def make_call(call: dict, root: str, tool=None):
             kw["corrections_only"] = True
         if call.get("lenient"):
             kw["lenient"] = True
+        for k_, v_ in (call.get("extra_args") or {}).items():
+            if k_ == "mutations" and call["mode"] not in ("content", "changes"):
+                continue
+            kw[k_] = copy.deepcopy(v_)
         t = tool or WriteTool()
         return lambda: drive(t.execute(**kw))
     if entry == "atomic":
@@ -147,7 +151,16 @@ def gen_history(t: Tape, idx: int, maxlen: int) -> dict:
         if kind == "bad_path":
             st["path"] = t.pick(["sb/../sb/t.oct.md", "sb/t.txt", "sb/link.oct.md", "sb/t.oct.md.bak"], "h.bp")
         steps.append(st)
-    return {"layer": "L1", "init": init, "steps": steps}
+    case = {"layer": "L1", "init": init, "steps": steps}
+    if t.flag(200, "h.deep"):
+        # the target lives in a directory that does not exist yet: a failing or dry call must not create it
+        case["target"] = "sb/nd/deeper/t.oct.md"
+        case["init"] = None
+    if t.flag(350, "h.args"):
+        case["extra_args"] = t.pick([{"lenient": True}, {"schema": "META"}, {"schema": "NOPE", "debug_grammar": True},
+                                     {"lenient": True, "parse_error_policy": "salvage"}, {"mutations": {"STATUS": "ACTIVE"}},
+                                     {"schema": "META", "grammar_hint": True, "lenient": True}], "h.argset")
+    return case
 
 
 def bh_value(kind: str, cur: bytes | None, prev_hashes: list, future_text: str | None) -> str | None:
@@ -184,9 +197,18 @@ def bh_value(kind: str, cur: bytes | None, prev_hashes: list, future_text: str |
     raise ValueError(kind)
 
 
+def _ident(path):
+    try:
+        st = seam.real("lstat")(path)
+        return (st.st_ino, st.st_mtime_ns)
+    except OSError:
+        return None
+
+
 def run_history(case: dict, stats: Stats | None = None) -> dict:
     """Execute one sequential history; returns violations etc."""
     root = fsmodel.fresh_root("h")
+    TARGET = case.get("target") or globals()["TARGET"]
     spec = [("d", "sb", 0o755), ("f", "sb/other.oct.md", b"===O===\nX::1\n===END===\n", 0o644),
             ("l", "sb/link.oct.md", "other.oct.md")]
     if case["init"] is not None:
@@ -205,6 +227,7 @@ def run_history(case: dict, stats: Stats | None = None) -> dict:
     for k, st in enumerate(case["steps"]):
         snap0 = fsmodel.snapshot(root)
         node = snap0.get(TARGET)
+        ident0 = _ident(target)
         cur = node[2] if node and node[0] == "f" else None
         cur_h = text_hash(cur) if cur is not None else None
         if cur_h:
@@ -216,6 +239,7 @@ def run_history(case: dict, stats: Stats | None = None) -> dict:
                     if os.path.lexists(target):
                         os.unlink(target)
                 else:
+                    os.makedirs(os.path.dirname(target), exist_ok=True)
                     with open(target, "wb") as f:
                         f.write(st["text"].encode())
             log.append([k, kind])
@@ -243,6 +267,11 @@ def run_history(case: dict, stats: Stats | None = None) -> dict:
             call.update(entry=st.get("entry", "tool"), mode="content", text=st["text"])
         bh = bh_value(st["bhk"], cur, prev_hashes, st.get("text"))
         call["bh"] = bh
+        if case.get("target") and not call.get("path"):
+            call["path"] = case["target"]
+        if case.get("extra_args") and call["entry"] == "tool" and kind in ("content", "content_dry", "changes", "changes_dry", "normalize",
+                                                                               "normalize_dry", "bad_content"):
+            call["extra_args"] = case["extra_args"]
         # ---- run it under the seam (single actor: op log, no scheduling)
         sim = seam.Simulation(root, Tape(values=[]), seam.Knobs())
         a = sim.add_actor("c", make_call(call, root))
@@ -271,9 +300,13 @@ def run_history(case: dict, stats: Stats | None = None) -> dict:
         if status == "error" or dry:
             if d:
                 V("inert", f"{kind} returned {out} but the file system changed: {d}", k)
+            elif _ident(target) != ident0:
+                V("inert-touched", f"{kind} returned {out}; the target's bytes are the same but it was rewritten or touched "
+                                   f"(inode/mtime {ident0} -> {_ident(target)})", k)
             if dry and mut_ops:
                 V("dry-ops", f"corrections_only call issued mutating operations {mut_ops[:3]}", k)
-        if not clean and status == "success" and not dry:
+        salvaging = kind == "bad_content" and (call.get("extra_args") or {}).get("lenient")
+        if not clean and status == "success" and not dry and not salvaging:
             V("bad-call-succeeded", f"{kind} with invalid arguments returned success: {out}", k)
         if different_digest:
             if status == "success" and not dry:
@@ -294,7 +327,8 @@ def run_history(case: dict, stats: Stats | None = None) -> dict:
                     V("success-hash", f"file hashes to {h1[:12]}, envelope says {str(out.get('hash'))[:12]}", k)
                 if node and node[0] == "f" and node1[1] != node[1]:
                     V("success-mode", f"mode changed {oct(node[1])} -> {oct(node1[1])}", k)
-            others = [x for x in d if not x[2:].startswith(TARGET + " ")]
+            others = [x for x in d if not x[2:].startswith(TARGET + " ")
+                      and not (x.startswith("+ ") and " dir " in x and TARGET.startswith(x[2:].split(" ")[0] + "/"))]
             if others:
                 V("frame", f"successful {kind} changed other entries: {others}", k)
         if stats is not None:
@@ -634,7 +668,8 @@ def gen_aio(t: Tape, idx: int) -> dict:
     reqs = []
     for i in range(n):
         reqs.append({"entry": "tool", "mode": "content", "text": docs.gen_doc(t, f"{m}q{i}"),
-                     "bh": t.weighted([(cur_h, 7), (None, 2), (sha_text("stale"), 1)], "a.bh")})
+                     "bh": t.weighted([(cur_h, 7), (None, 2), (sha_text("stale"), 1)], "a.bh"),
+                     "kind": t.weighted([("write", 7), ("dry", 2), ("bad", 1)], "a.kind")})
     # message layer: duplicates (retry after lost reply), delays
     deliveries = []
     for i in range(n):
@@ -685,6 +720,10 @@ def run_aio(case: dict, stats: Stats | None = None) -> dict:
         kw = {"target_path": target, "content": req["text"]}
         if req.get("bh") is not None:
             kw["base_hash"] = req["bh"]
+        if req.get("kind") == "dry":
+            kw["corrections_only"] = True
+        if req.get("kind") == "bad":
+            kw["changes"] = {"X": 1}  # content AND changes: E_INPUT
         order.append(k)
         txt = await dispatcher("octave_write", kw)
         results.append((k, d["req"], json.loads(txt)))
@@ -736,11 +775,14 @@ def run_aio(case: dict, stats: Stats | None = None) -> dict:
         got = {}
         for k in perm:
             rq = case["reqs"][delivered[k]]
-            if rq.get("bh") and rq["bh"] != reg:
+            if rq.get("kind") == "bad":
+                got[k] = ("error", "E_INPUT")
+            elif rq.get("bh") and rq["bh"] != reg:
                 got[k] = ("error", "E_HASH")
             else:
                 got[k] = ("success", None)
-                reg = canon[delivered[k]]
+                if rq.get("kind", "write") == "write":
+                    reg = canon[delivered[k]]
         if reg == final_h and all(got[k] == (st, code if st == "error" else None) for k, (r, st, code) in enumerate(observed)):
             explained = True
             break
